@@ -570,6 +570,12 @@ class SymInt(_Num):
         r = FracShim(o) % FracShim(self)
         return wrap_int(z3.ToInt(zr(r._v)))
 
+    def __divmod__(self, o):
+        return (self // o, self % o)
+
+    def __rdivmod__(self, o):
+        return (o // self, o % self)
+
     def __neg__(self): return wrap_int(arith("-", 0, self.t))
     def __pos__(self): return self
     def __abs__(self): return wrap_int(z3.If(self.t >= 0, self.t, -self.t))
@@ -606,9 +612,17 @@ class SymInt(_Num):
     def __trunc__(self): return self
 
     def __format__(self, spec):
-        if spec not in ("", "d"):
-            raise Unsupported("format spec for symbolic int: " + spec)
-        return make_token(("int", self.t))
+        if spec in ("", "d"):
+            return make_token(("int", self.t))
+        mm = re.match(r"^0(\d+)d?$", spec)
+        if mm:
+            # zero-padded to a minimum width: decide by case split whether the value fits the width (then the text has
+            # exactly `width` digits); wider or negative values are rendered like a plain int
+            w = int(mm.group(1))
+            if CTL.branch(z3.And(self.t >= 0, self.t < 10 ** w)):
+                return make_token(("intpad", self.t, w))
+            return make_token(("int", self.t))
+        raise Unsupported("format spec for symbolic int: " + spec)
 
     def __str__(self):
         return make_token(("int", self.t))
@@ -663,10 +677,53 @@ def has_token(s):
     return isinstance(s, str) and _TOKEN_RE.search(s) is not None
 
 
+_NUMTXT = re.compile(r"^\s*([+-]?)(\d+|⟦N\d+⟧)(?:\.(\d*|⟦N\d+⟧))?\s*$")
+
+
+def parse_numeric_text(s):
+    """value (v, nd) of a decimal text whose integer and/or fraction digits are tokens: [sign] INT [. FRAC]
+    INT: digits or an int token (its own text carries a '-' when negative); FRAC: digits or a zero-padded int token."""
+    mo = _NUMTXT.match(s)
+    if not mo:
+        return None
+    sign, ip, fp = mo.group(1), mo.group(2), mo.group(3)
+    if ip in TOKENS:
+        p = TOKENS[ip]
+        if p[0] not in ("int", "intpad"):
+            return None
+        it = p[1]
+    else:
+        it = int(ip)
+    if fp is None or fp == "":
+        fr, w = 0, 0
+    elif fp in TOKENS:
+        p = TOKENS[fp]
+        if p[0] == "intpad":
+            fr, w = p[1], p[2]
+        elif p[0] == "int":
+            raise Unsupported("fraction digits rendered without a fixed width")
+        else:
+            return None
+    else:
+        fr, w = int(fp), len(fp)
+    den = 10 ** w
+    if not is_term(it) and not is_term(fr):
+        neg = sign == "-" or (it < 0)
+        mag = abs(it) * den + fr
+        return _norm(RealFraction(-mag if neg else mag, den)), None
+    itz, frz = z(it), z(fr)
+    if sign == "-":
+        num = -(itz * den + frz)      # explicit sign: the integer part is then non-negative text
+    else:
+        num = z3.If(itz < 0, itz * den - frz, itz * den + frz)
+    num = z3.simplify(num)
+    return z3.ToReal(num) / den if den != 1 else z3.ToReal(num), (num, den)
+
+
 def payload_value(p):
     """-> (v, nd) exact value denoted by a token payload"""
     kind = p[0]
-    if kind == "int":
+    if kind in ("int", "intpad"):
         return p[1], (p[1], 1)
     if kind == "dec":  # m / 10**places
         m, places = p[1], p[2]
@@ -798,8 +855,18 @@ class _RatLike(_Num):
 
     def __round__(self, ndigits=None):
         if ndigits is not None:
+            if not isinstance(ndigits, int):
+                raise Unsupported("round(x, n) with symbolic n")
             if is_term(self._v):
-                raise Unsupported("round(x, n) of a symbolic number")
+                # round half even to n decimal places: m / 10^n with m = round(x * 10^n)
+                scale = 10 ** ndigits if ndigits >= 0 else RealFraction(1, 10 ** (-ndigits))
+                scaled = self * scale
+                m = scaled.__round__()
+                mt = m.t if isinstance(m, SymInt) else m
+                r = self._mk(zr(mt) / zr(scale) if True else None, None)
+                if ndigits >= 0:
+                    r = type(self)._base()._make(z3.ToReal(z(mt)) / (10 ** ndigits), (z(mt), 10 ** ndigits)) if is_term(mt) else self._mk(_norm(RealFraction(mt, 10 ** ndigits)))
+                return r
             return self._mk(_norm(round(RealFraction(self._v), ndigits)))
         if self._nd is not None:
             return wrap_int(nd_round(*self._nd))
@@ -934,7 +1001,10 @@ class FracShim(_RatLike):
                 if p is not None:
                     v, nd = payload_value(p)
                 elif has_token(numerator):
-                    raise Unsupported("token embedded in a longer numeric string: %r" % numerator)
+                    r = parse_numeric_text(numerator)
+                    if r is None:
+                        raise Unsupported("token embedded in a longer numeric string: %r" % numerator)
+                    v, nd = r
                 else:
                     v = _norm(RealFraction(numerator))
             else:
@@ -1017,7 +1087,10 @@ class FloatShim(_RatLike):
             if p is not None:
                 v, nd = payload_value(p)
             elif has_token(x):
-                raise Unsupported("token embedded in a longer numeric string: %r" % x)
+                r = parse_numeric_text(x)
+                if r is None:
+                    raise Unsupported("token embedded in a longer numeric string: %r" % x)
+                v, nd = r
             else:
                 v = _norm(RealFraction(float(x)))  # parsing text yields the nearest double, exactly as CPython's float(str)
         else:
@@ -1064,7 +1137,10 @@ class DecShim(_RatLike):
             if p is not None:
                 v, nd = payload_value(p)
             elif has_token(x):
-                raise Unsupported("token embedded in a longer numeric string: %r" % x)
+                r = parse_numeric_text(x)
+                if r is None:
+                    raise Unsupported("token embedded in a longer numeric string: %r" % x)
+                v, nd = r
             else:
                 d = RealDecimal(x)  # raises InvalidOperation like the real one
                 if not d.is_finite():
@@ -1226,12 +1302,42 @@ def load_shimmed(mods, root=None):
         out = {m: importlib.import_module(m) for m in mods}
     finally:
         sys.meta_path.remove(finder)
-        for k in [k for k in sys.modules if k == "simfile" or k.startswith("simfile.")]:
+        shim_mods_snapshot = {k: v for k, v in sys.modules.items() if k == "simfile" or k.startswith("simfile.")}
+        for k in list(shim_mods_snapshot):
             del sys.modules[k]
         sys.modules.update(saved)
     out["__files__"] = list(finder.loaded)
+    # snapshot of module-level mutable containers: restored in place before every path, so that each path starts from the
+    # state of a freshly imported library (re-execution must not inherit what an earlier path did to module globals)
+    import copy
+    for mname, mod in shim_mods_snapshot.items():
+        for name, obj in list(vars(mod).items()):
+            if isinstance(obj, (dict, list, set)) and not name.startswith("__"):
+                try:
+                    _GLOBAL_SNAPSHOT.append((obj, copy.copy(obj)))
+                except Exception:
+                    pass
     _LOADED[key] = out
     return out
+
+
+_GLOBAL_SNAPSHOT = []
+
+
+def reset_module_state():
+    for obj, saved in _GLOBAL_SNAPSHOT:
+        try:
+            if isinstance(obj, dict):
+                if dict.__ne__(obj, saved) if False else (list(dict.items(obj)) != list(dict.items(saved))):
+                    dict.clear(obj); dict.update(obj, saved)
+            elif isinstance(obj, list):
+                if list(obj) != list(saved):
+                    obj[:] = saved
+            elif isinstance(obj, set):
+                if obj != saved:
+                    obj.clear(); obj.update(saved)
+        except Exception:
+            pass
 
 
 # ------------------------------------------------------------------ exploration
@@ -1287,6 +1393,7 @@ def explore(fn, max_paths=200000, budget_s=600.0, variables=None):
     while True:
         CTL.reset_run()
         TOKENS.clear()
+        reset_module_state()
         status = "ok"
         try:
             ok, info = fn()
